@@ -54,6 +54,8 @@ pub enum Fault {
     Fill { at: usize, len: usize, val: u8 },
     /// several edits of one image, applied in order
     Multi { faults: Vec<Fault> },
+    /// `len` bytes at `from` overwrite the bytes at `to` (a tag or a payload transplanted from another chunk)
+    Copy { from: usize, to: usize, len: usize },
 }
 
 /// One fully explicit simulated run (what a replay file carries)
